@@ -364,7 +364,7 @@ def _exhaustive_par(ctx: Ctx, comp: ParComp) -> None:
         if gk in groups and groups[gk] != pub:
             ctx.monitor_fail("par.run", "schedule_independent", c, f"differs from another completion order: {pub} vs {groups[gk]}", o)
         groups.setdefault(gk, pub)
-    ctx.extra.setdefault("exhaustive", {})["par.run"] = {
+    ctx.extra.setdefault("exhaustive_scopes", {})["par.run"] = {
         "max_tasks": nmax, "workers": workers, "cases": len(cases),
         "scope": "all completion orders x all failure subsets x worker counts (n=5 thinned for some worker counts in thorough)"}
 
